@@ -38,6 +38,12 @@ def replay_g(v):
     got, _ = loadgen.load_text(sch, text, rec=_RECS[i])
     why = loadgen.compare_outcome(v["o"], got, check_tree=_MODE["tree"])
     if why is None:
+        # once more through a loader object that has served every earlier text of this schema, failed ones included
+        got, _ = loadgen.load_text_reused(sch, text, rec=_RECS[i])
+        why = loadgen.compare_outcome(v["o"], got, check_tree=_MODE["tree"])
+        if why is not None:
+            why += "-through-a-reused-loader"
+    if why is None:
         return None
     return {"clause": why, "input": {"schema_xml": schemas.to_xml(_DOCS[i]), "text": text},
             "spec": v["o"], "observed": got, "unspecified": v["unspec"],
